@@ -35,24 +35,30 @@ namespace vf {
 const char* harness_name() { return "C02/cubical"; }
 
 void run_case(Tape& t, Ctx& ctx) {
+  // Tape layout: dimension | carrier+input | one byte per direction | palette | value seed | runs | per-cell draws.
   // shape: 1-3 directions (4 now and then), 1-4 top cells per direction, at most ~400 cells
   unsigned d = 1 + unsigned(t.weighted({4, 6, 4, 1}));
-  unsigned carrier = unsigned(t.weighted({2, 3}));  // 0 plain base, 1 periodic base (mask may be empty)
-  bool from_vertices = t.flip();
+  unsigned cb = t.u8();
+  unsigned carrier = (cb % 5) < 2 ? 0 : 1;  // 0 plain base, 1 periodic base (mask may be empty)
+  bool from_vertices = ((cb / 5) % 2) == 1;
   std::vector<unsigned> n(d);
   std::vector<bool> periodic(d, false);
   size_t cells = 1;
   for (unsigned j = 0; j < d; ++j) {
-    n[j] = 1 + t.below(4);
-    bool per = carrier == 1 && t.flip();
+    unsigned x = t.u8();
+    n[j] = 1 + x % 4;
+    bool per = carrier == 1 && ((x / 4) % 2) == 1;
     while (n[j] > 1 && cells * (2 * n[j] + 1) > 400) --n[j];
     // periodic directions: at least 2 cells (a regular CW structure needs 3; 2 still is a chain complex and the engine
     // takes it; 1 identifies the two ends of every edge and is left to a rare class)
-    if (per && n[j] == 1 && !t.chance(1, 8)) per = false;
+    if (per && n[j] == 1 && (x / 8) % 8 != 7) per = false;
     periodic[j] = per;
     cells *= per ? 2 * n[j] : 2 * n[j] + 1;
   }
   c02::Palette pal = c02::decode_palette(t, 6, true);
+  unsigned sb = t.u8();
+  bool seeded = (sb % 3) != 1;  // draws expanded from two tape bytes instead of one byte per value
+  uint64_t vseed = seeded ? (t.u8() | (uint64_t(sb) << 8)) : 0;
   unsigned nruns = 1 + t.below(3);
   std::vector<c02::RunSpec> runs;
   for (unsigned r = 0; r < nruns; ++r) runs.push_back(c02::decode_run(t, pal, 0, ctx));
@@ -64,7 +70,8 @@ void run_case(Tape& t, Ctx& ctx) {
     count *= dims[j];
   }
   std::vector<double> vals(count);
-  for (auto& v : vals) v = pal.v[t.below(uint32_t(pal.v.size()))];
+  for (size_t i = 0; i < count; ++i)
+    vals[i] = seeded ? pal.v[c02::expand(vseed, i) % pal.v.size()] : pal.v[t.below(uint32_t(pal.v.size()))];
 
   ctx.desc << (carrier ? "periodic base" : "plain base") << " top cells";
   for (unsigned j = 0; j < d; ++j) ctx.desc << " " << n[j] << (periodic[j] ? "p" : "");
